@@ -224,6 +224,9 @@ def cmd_seeded(a):
                 return
             sh(["git", "-C", repo, "checkout", "-q", "--", "."])
             rc, out = sh(["git", "-C", repo, "apply", os.path.join(VERIF, "seeded", sid, "patch.diff")])
+            if rc != 0:
+                # the tree has moved on since the change was written (later fix: commits): apply with fuzz
+                rc, out = sh(["sh", "-c", "cd %s && patch -p1 --fuzz=3 --no-backup-if-mismatch < %s" % (repo, os.path.join(VERIF, "seeded", sid, "patch.diff"))])
             res = dict(id=sid, applies=(rc == 0), flagged={}, infra=[])
             if rc == 0:
                 env2 = dict(os.environ, NPTDMS_REPO=repo)
